@@ -230,7 +230,18 @@ fn rdefs() -> &'static Vec<actix_router::ResourceDef> {
 
 fn rpath(c: &Case<'_>) -> Out {
     let lens: Vec<usize> = c.kv("lens").unwrap_or("").split(',').filter_map(|x| x.parse().ok()).collect();
+    // `pre=4,10`: static prefixes ("/ppp", "/ppppppppp") consumed first, as nested scopes do
+    let pre: Vec<usize> = c.kv("pre").unwrap_or("").split(',').filter_map(|x| x.parse().ok()).filter(|n| *n >= 2).collect();
     let mut s = String::new();
+    let mut prefixes: Vec<String> = Vec::new();
+    for n in &pre {
+        let mut p = String::from("/");
+        for _ in 1..*n {
+            p.push('p');
+        }
+        s.push_str(&p);
+        prefixes.push(p);
+    }
     for l in &lens {
         s.push('/');
         for _ in 0..*l {
@@ -239,6 +250,11 @@ fn rpath(c: &Case<'_>) -> Out {
     }
     let k = (c.kv_u64("k", 4) as usize).min(4);
     let mut path = actix_router::Path::new(s.as_str());
+    for p in &prefixes {
+        if !actix_router::ResourceDef::prefix(p.as_str()).capture_match_info(&mut path) {
+            return Out::new("static-miss");
+        }
+    }
     let mut matched = 0usize;
     for rd in rdefs().iter().take(k) {
         if rd.capture_match_info(&mut path) {
